@@ -133,6 +133,9 @@ def evaluate(ctx, spec, data, case, lines, checks):
     ctx.count(f"flavour_{case['flavour']}")
     if err:
         kind = "raises" if not err.startswith(("index", "non-termination")) else err.split(":")[0]
+        Xp = np.asarray(data["X"], dtype=float)
+        if kind == "raises" and len(np.unique(Xp, axis=0)) < len(Xp):
+            kind += "/duplicated-points-in-pool"       # precondition class (part of the key a known finding is matched by)
         ctx.violate(f"C14/{spec.name}/{kind}", f"pool loop with {spec.name}: cycle {len(trace)} failed: {err}", case)
         return
     prob = py_exhausts(data["y"], b, trace)
@@ -145,7 +148,7 @@ def evaluate(ctx, spec, data, case, lines, checks):
 
 
 def correspond(ctx):
-    explore(ctx, per_spec=3 if not ctx.thorough else 18, sizes=(4, 10) if not ctx.thorough else (4, 18))
+    explore(ctx, per_spec=8 if not ctx.thorough else 30, sizes=(4, 16) if not ctx.thorough else (4, 24))
 
 
 def search(ctx):
